@@ -285,6 +285,86 @@ def judge(part, pid, w, scn):
         part.outcome((scn['name'], finals))
 
 
+def run_flux_outcomes(ctx):
+    '''
+    the Flux executor turns the job's events into the task's outcome: every
+    end of a job (exit status 0 / non-zero, wait status of a signal death,
+    finish event without status, cancel / timeout / other exception, launch
+    failure), after every prefix of life-cycle events - the task is handed
+    on once, DONE only for exit status 0, CANCELED only if cancelled
+    '''
+    from radical.pilot.agent.executing import flux as fx
+
+    class Ev(object):
+        def __init__(self, name, **ctx_):
+            self.name, self.context, self.timestamp = name, ctx_, 1000.0
+
+    ends = [('finish', {'status': 0},    rps.DONE),
+            ('finish', {'status': 256},  rps.FAILED),     # exit 1
+            ('finish', {'status': 9},    rps.FAILED),     # SIGKILL
+            ('finish', {'status': 139},  rps.FAILED),     # SIGSEGV + core
+            ('finish', {},               rps.FAILED),     # no status at all
+            ('exception', {'type': 'cancel'},  rps.CANCELED),
+            ('exception', {'type': 'timeout'}, rps.CANCELED),
+            ('exception', {'type': 'exec'},    rps.FAILED),
+            ('lm_failed', {},                  rps.FAILED)]
+    prefixes = [[], ['start'], ['alloc', 'start'], ['start', 'unschedule']]
+    n = 0
+    for pre in prefixes:
+        for name, cx, want in ends:
+            n += 1
+            f = fx.Flux.__new__(fx.Flux)
+            f._log, f._prof = seams.null(), seams.null()
+            f._event_map = {'cleanup': None,
+                            'finish' : rps.AGENT_STAGING_OUTPUT_PENDING,
+                            'free': None, 'clean': None, 'priority': None,
+                            'exception': rps.FAILED}
+            task = {'uid': 't1', 'type': 'task', 'origin': 'client',
+                    'state': rps.AGENT_EXECUTING, 'description':
+                    {'post_launch': [], 'timeout': 0, 'startup_timeout': 0},
+                    'task_sandbox_path': '/tmp'}
+            f._tasks = {'j1': task}
+            log = list()
+            f.advance_tasks  = lambda t, st, publish=True, push=True, ts=None: \
+                               log.append((st, t.get('target_state'),
+                                           t.get('exit_code'), push))
+            f.handle_timeout = lambda t: None
+            replay = {'kind': 'flux', 'events': pre + [name], 'context': cx}
+            try:
+                for p in pre:
+                    f._handle_event_cb('j1', Ev(p))
+                f._handle_event_cb('j1', Ev(name, **cx))
+            except Exception as e:
+                ctx.violation('flux-outcome|Flux._handle_event_cb|%s:raises'
+                              % name, {'what': '%s %s after %s: %r'
+                                               % (name, cx, pre, e)}, replay)
+                continue
+            final = [(st, tgt, ec) for st, tgt, ec, _ in log
+                     if st in (rps.AGENT_STAGING_OUTPUT_PENDING, rps.FAILED)]
+            got = None
+            if len(final) == 1:
+                st, tgt, ec = final[0]
+                got = st if st == rps.FAILED else tgt
+            trig = '%s:%s' % (name, 'signal' if cx.get('status') in (9, 139)
+                              else 'nostatus' if name == 'finish' and not cx
+                              else cx.get('status', cx.get('type', '-')))
+            if got != want:
+                ctx.violation('flux-outcome|Flux._handle_event_cb|%s' % trig,
+                              {'what': 'job event %s %s after %s: handed on '
+                                       'as %s (%s), expected %s'
+                                       % (name, cx, pre, got, log, want)},
+                              replay)
+            elif want == rps.DONE and final[0][2] not in (0, None) or \
+                 want == rps.FAILED and name == 'finish' and not final[0][2]:
+                ctx.violation('flux-exit-code|Flux._handle_event_cb|%s' % trig,
+                              {'what': 'job event %s %s: exit code %r '
+                                       'recorded for a %s task'
+                                       % (name, cx, final[0][2], want)},
+                              replay)
+            ctx.outcome(('flux', tuple(pre), name, repr(cx), got))
+    ctx.cover(evaluations=n, flux_outcome_cases=n)
+
+
 def _site_of(w, uid):
     pos = w.position(uid)
     return 'pipeline' if pos is None else pw.CHAIN[pos]
@@ -376,6 +456,8 @@ def run(ctx):
         from checks import c20_master
         c20_master.run_backlog_cancel(ctx)
 
+    if ctx.pid == 'C05':
+        run_flux_outcomes(ctx)
     if ctx.pid == 'C05':
         # the executor's interleavings: exactly one hand-on per task
         from checks import c07_executor
